@@ -13,7 +13,7 @@ oracle: no Lean.  Per get_template call: freshness under C14's rule w.r.t. the f
         linearisable against a sequential reference lookup; first requests compile once / same object; no thread
         blocked at the end (deadlock / time-out / stray thread); mutex acquire/release pairing; LRU bound whenever
         no thread is inside an LRU write; render output = the output of the same render run alone; adjust_uri /
-        renders with <%include> raise nothing (bounded lookup: finding F-C16-2).  The same
+        renders with <%include> raise nothing (F11 and F-C16-2 were found here and are repaired in /repo).  The same
         oracle runs on PCT-style random priority schedules with a scheduling point at every executed line of
         mako code and every template-level call (depth 3 = preemption bound 2).
 """
@@ -94,7 +94,7 @@ def scenarios(tier):
         scn("diff3-lru1", [["g0"], ["g1"], ["g2"]], fs=[(0, 0, 1), (0, 1, 1), (0, 2, 1)], cap=1),
         scn("diff2-lru1-hit", [["g1", "g0"], ["g2"]], fs=[(0, 0, 1), (0, 1, 1), (0, 2, 1)], cap=1, prologue=["g0"]),
         scn("missing2", [["g5"], ["g0"]]),
-        scn("modify-get", [["g0"], ["t", "w0.0.1", "g0"]]),                       # F11 lives here
+        scn("modify-get", [["g0"], ["t", "w0.0.1", "g0"]]),                       # F11 lived here
         scn("modify-get-same-second", [["g0"], ["w0.0.1", "g0"]]),
         scn("reload2", [["g0"], ["g0"]], prologue=["g0", "t", "w0.0.1"]),           # double compile of a stale entry
         scn("reload-modify", [["g0"], ["t", "w0.0.1", "g0"]], prologue=["g0", "t", "w0.0.1"]),
@@ -111,7 +111,7 @@ def scenarios(tier):
         scn("render-modify", [["g0", r1], ["t", "w0.0.1", "g0", r2]], kind="cached", prologue=["g0"]),
         scn("lru-pop-race", [["g0"], ["g1"]], fs=[(0, 0, 1), (0, 1, 1)], cap=1, prologue=["g0", "t", "w0.0.1"]),
         scn("adjust-plain", [["a0", "a0"], ["a1", "a0"]]),
-        scn("adjust-lru1", [["a0", "a0"], ["a1"]], cap=1),                        # F-C16-2 lives here
+        scn("adjust-lru1", [["a0", "a0"], ["a1"]], cap=1),                        # F-C16-2 lived here
         scn("adjust-lru2", [["a0", "a1", "a0"], ["a2", "a3"]], cap=2),
     ]
     if not q:
@@ -834,3 +834,6 @@ def replay(ctx, data):
         return ok
     finally:
         runner.close()
+
+
+DRIVER_OPS = ["conc"]   # per-area driver executable(s) this check talks to (built before any worker is forked)
